@@ -454,7 +454,7 @@ Lemma done_step c s i s' o :
   step s i = (s', o) -> err s = false -> hs s = DONE ->
   (fatal_out o = true /\ err s' = true) \/
   (quiet c s i o /\ s' = s) \/
-  (exists m, i = IHs m /\ m_typ m = NST /\ v13 s = true /\ server s = false /\ s' = accept s m false /\ o = OAccept false).
+  (exists m, i = IHs m /\ m_typ m = NST /\ m_body m = BPlain /\ v13 s = true /\ server s = false /\ s' = accept s m false /\ o = OAccept false).
 Proof.
   intros Hs He Hh. destruct s as [sv vv h rs ws er re ca pk dh tk st lc up hr ea tkk gc dt ck ac trr sn]. simpl in He, Hh. subst.
   destruct i as [|[t b cl]].
@@ -689,12 +689,13 @@ Proof.
     + destruct (c_dtls c) eqn:CD.
       * apply (live_step_in c s (IHs m) s' o n He Hg Hx); [rewrite CD; apply in_alphabet; exact Hin | exact Hs].
       * (* TLS: the class is not looked at *)
-        rewrite CD in Hdt. rewrite (step_cls_tls s m Hdt) in Hs.
+        rewrite (step_cls_tls s m Hdt) in Hs.
         assert (Ha : In (IHs (erase m)) (alphabet (c_dtls c))) by (rewrite CD; apply in_alphabet_tls; exact Hin).
         destruct (live_step_in c s (IHs (erase m)) s' o n He Hg Hx Ha Hs) as [F | [[Q E] | A]].
         -- left. exact F.
         -- exfalso. destruct Q as [[_ [Q _]] | [[Q _] | [[_ [Q _]] | [_ [Q _]]]]]; try discriminate; try congruence.
-        -- right; right. destruct A as [r A]. exists r. exact A.
+        -- right; right. destruct A as [r A]. exists r.
+           destruct (twin_facts (IHs m)) as [T1 [T2 [T3 _]]]. cbn [expected_twin] in T1, T2, T3. rewrite T1, T2, T3 in A. exact A.
     + destruct (step_unknown s m He Hh Hout) as [U | [D [V [Dr [r U]]]]]; rewrite U in Hs; inversion Hs; subst.
       * left; split; reflexivity.
       * right; left. split; [|reflexivity]. right; left. split; [exact D|]. split; [exact Dr|]. eexists; reflexivity.
@@ -703,7 +704,8 @@ Qed.
 (* ================================================================== the invariant of every run *)
 Definition done_inv (c : cfg) (s : hst) : Prop :=
   exists md, negotiated c (acc s) = Some md /\ legal md (kinds (acc s)) /\
-             v13 s = md_v13 md /\ server s = md_server md /\ noskipb md (acc s) = true.
+             v13 s = md_v13 md /\ server s = md_server md /\ noskipb md (acc s) = true /\
+             dtls s = md_dtls md /\ (dtls s = true -> v13 s = false).
 
 Inductive stat (c : cfg) (s : hst) : Prop :=
 | StDead : err s = true -> stat c s
@@ -712,12 +714,13 @@ Inductive stat (c : cfg) (s : hst) : Prop :=
 
 Lemma good_done c s : good c s = true -> hs s = DONE -> done_inv c s.
 Proof.
-  unfold good. intros H Hd. apply andb_prop in H. destruct H as [_ H]. rewrite Hd in H.
-  replace (Z.eqb DONE DONE) with true in H by reflexivity.
-  unfold doneb in H. destruct (negotiated c (acc s)) as [md|] eqn:N; [|discriminate].
-  destruct (andb_prop _ _ H) as [H1 KN]. destruct (andb_prop _ _ H1) as [H2 KS]. destruct (andb_prop _ _ H2) as [KL KV].
+  intros H Hd. destruct (good_parts c s H) as [_ [_ [Hdone [Hv _]]]]. specialize (Hdone Hd).
+  unfold doneb in Hdone. destruct (negotiated c (acc s)) as [md|] eqn:N; [|discriminate].
+  destruct (andb_prop _ _ Hdone) as [H0 KD]. destruct (andb_prop _ _ H0) as [H1 KN]. destruct (andb_prop _ _ H1) as [H2 KS].
+  destruct (andb_prop _ _ H2) as [KL KV].
   exists md. split; [exact N|]. split; [apply legalb_sound; exact KL|].
-  split; [apply Bool.eqb_prop; exact KV|]. split; [apply Bool.eqb_prop; exact KS | exact KN].
+  split; [apply Bool.eqb_prop; exact KV|]. split; [apply Bool.eqb_prop; exact KS|]. split; [exact KN|].
+  split; [apply Bool.eqb_prop; exact KD | exact Hv].
 Qed.
 
 Lemma kinds_app a b : kinds (a ++ b) = kinds a ++ kinds b.
@@ -743,16 +746,17 @@ Lemma msgs_of_app who a b : msgs_of who (a ++ b) = msgs_of who a ++ msgs_of who 
 Proof. unfold msgs_of. apply map_app. Qed.
 
 (* RFC 8446: one more post-handshake NewSessionTicket keeps a client's sequence legal *)
-Lemma legal_nst md l : md_v13 md = true -> md_server md = false -> legal md l -> legal md (l ++ [KHs NST]).
+Lemma legal_nst md l : md_v13 md = true -> md_server md = false -> md_dtls md = false -> legal md l -> legal md (l ++ [KHs NST]).
 Proof.
-  intros V S [f [Hf [Hc Hl]]]. inversion Hf; subst; try congruence.
+  intros V S D [f [Hdf [Hc Hl]]]. destruct Hdf as [Hf | [Dt _]]; [|congruence].
+  inversion Hf; subst; try congruence.
   exists (msgs_of Cl [KHs CH] ++
           when (md_hrr md) (msgs_of Sv [KHs SH] ++ msgs_of Cl [KHs CH]) ++
           msgs_of Sv ([KHs SH; KHs EE] ++ creq ++
                       when (negb (match md_res md with ResYes => true | _ => false end)) [KHs CERT; KHs CVFY] ++ [KHs FIN]) ++
           msgs_of Cl (when (md_early md) [KHs EOED] ++ ccv ++ [KHs FIN]) ++ msgs_of Sv (nsts ++ [KHs NST])).
   split; [|split].
-  - apply Flow13; auto. apply Forall_app. split; [assumption | constructor; [reflexivity | constructor]].
+  - left. apply Flow13; auto. apply Forall_app. split; [assumption | constructor; [reflexivity | constructor]].
   - unfold cauth_consistent. intro C. congruence.
   - rewrite (msgs_of_app Sv nsts [KHs NST]). rewrite app5.
     match goal with |- _ = received md (?F ++ ?X) => rewrite (received_app md F X) end.
@@ -771,31 +775,40 @@ Qed.
 
 Lemma accept_nohash s m :
   err (accept s m false) = err s /\ hs (accept s m false) = hs s /\ v13 (accept s m false) = v13 s /\
-  server (accept s m false) = server s /\ acc (accept s m false) = acc s ++ [MHs m] /\
-  snap (accept s m false) = snap s /\ tr (accept s m false) = tr s.
+  server (accept s m false) = server s /\ acc (accept s m false) = acc s ++ [MHs (erase m)] /\
+  snap (accept s m false) = snap s /\ tr (accept s m false) = tr s /\ dtls (accept s m false) = dtls s.
 Proof. destruct s. cbn. repeat split; reflexivity. Qed.
+
+Lemma nst_not_hello sv m : m_typ m = NST -> is_hello sv (erase m) = false.
+Proof. intro H. unfold is_hello, erase. cbn [m_typ m_body]. rewrite H. destruct sv; reflexivity. Qed.
+
+Lemma done_inv_nst c s m :
+  done_inv c s -> m_typ m = NST -> m_body m = BPlain -> v13 s = true -> server s = false ->
+  negotiated c (acc s ++ [MHs (erase m)]) = negotiated c (acc s) /\ done_inv c (accept s m false).
+Proof.
+  intros [md [N [L [V' [S' [K [D Dv]]]]]]] Hn Hb V S.
+  pose proof (negotiated_app_other c (acc s) (erase m) (nst_not_hello (c_server c) m Hn)) as Hneg.
+  split; [exact Hneg|].
+  destruct (accept_nohash s m) as [A1 [A2 [A3 [A4 [A5 [_ [_ A8]]]]]]].
+  assert (Dfalse : dtls s = false) by (destruct (dtls s); [rewrite Dv in V by reflexivity; discriminate | reflexivity]).
+  exists md. rewrite A5, Hneg. split; [exact N|]. split.
+  { rewrite kinds_app. cbn [kinds map kind_of erase m_body m_typ]. rewrite Hb, Hn. apply legal_nst; congruence. }
+  split; [congruence|]. split; [congruence|]. split; [apply noskipb_app; exact K|]. split; [congruence|].
+  rewrite A8, A3. exact Dv.
+Qed.
 
 Lemma stat_step c s i : stat c s -> stat c (fst (step s i)).
 Proof.
   intros [He | He Hd Hi | Hl].
   - unfold step. rewrite He. apply StDead. exact He.
   - destruct (step s i) as [s' o] eqn:Hs. cbn [fst].
-    destruct (done_step s i s' o Hs He Hd) as [[_ E] | [[_ E] | [m [Hi' [Hn [V [S [E _]]]]]]]].
+    destruct (done_step c s i s' o Hs He Hd) as [[_ E] | [[_ E] | [m [Hi' [Hn [Hb [V [S [E _]]]]]]]]].
     + apply StDead. exact E.
     + subst. apply StDone; assumption.
-    + subst s'. destruct Hi as [md [N [L [V' [S' K]]]]].
-      destruct (accept_nohash s m) as [A1 [A2 [A3 [A4 [A5 _]]]]].
-      apply StDone; [congruence | congruence |].
-      exists md. rewrite A5.
-      assert (Hh : is_hello (c_server c) m = false).
-      { unfold is_hello. rewrite Hn. destruct (c_server c); reflexivity. }
-      rewrite (negotiated_app_other c (acc s) m Hh). split; [exact N|].
-      split.
-      { rewrite kinds_app. cbn [kinds map]. rewrite Hn. apply legal_nst; congruence. }
-      split; [congruence|]. split; [congruence|].
-      apply noskipb_app. exact K.
+    + subst s'. destruct (accept_nohash s m) as [A1 [A2 _]].
+      apply StDone; [congruence | congruence | apply (done_inv_nst c s m Hi Hn Hb V S)].
   - destruct (step s i) as [s' o] eqn:Hs. cbn [fst].
-    destruct (live_step c s i s' o Hl Hs) as [[_ E] | [[_ [E _]] | [r [_ [E [G [_ [_ [[D _] | L]]]]]]]]].
+    destruct (live_step c s i s' o Hl Hs) as [[_ E] | [[_ E] | [r [_ [E [G [_ [_ [[D _] | L]]]]]]]]].
     + apply StDead. exact E.
     + subst. apply StLive. exact Hl.
     + apply StDone; [exact E | exact D | apply good_done; assumption].
@@ -836,37 +849,46 @@ Proof.
   - congruence.
 Qed.
 
+(* the non-fatal, non-advancing outcomes without the stateless HelloVerifyRequest answer (which presupposes a log that can
+   still become legal) *)
+Definition quiet3 (s : hst) (i : input) (o : out) : Prop :=
+  (o = OIgnore /\ i = ICcs /\ (v13 s = true \/ (dtls s = true /\ lastccs s = true))) \/
+  (dtls s = true /\ droppable i = true /\ exists r, o = ODrop r) \/
+  (o = OWarn c_SSL_ALERT_NO_RENEGOTIATION /\ hs s = DONE /\ v13 s = false /\
+   exists m, i = IHs m /\ m_typ m = (if server s then CH else HREQ)).
+
+Lemma quiet_cases c s i o : quiet c s i o -> quiet3 s i o \/ (o = OHvr /\ prefix_ok c (acc s ++ [item_of i])).
+Proof.
+  intros [Q | [Q | [Q | [Q1 [_ Q2]]]]].
+  - left; left; exact Q.
+  - left; right; left; exact Q.
+  - left; right; right; exact Q.
+  - right; split; assumption.
+Qed.
+
 Theorem deviation_fatal : forall c is i, In c all_cfgs ->
   let s := fst (run (init c) is) in
   err s = false ->
-  (v13 s = true -> i <> ICcs) ->                       (* RFC 8446 section 5: a TLS 1.3 receiver drops ChangeCipherSpec *)
   ~ prefix_ok c (acc s ++ [item_of i]) ->
   exists s' o, step s i = (s', o) /\
-    ((fatal_out o = true /\ err s' = true) \/
-     (* a renegotiation request on a completed session: no_renegotiation warning (RFC 5246 7.2.2), nothing changes *)
-     (o = OWarn c_SSL_ALERT_NO_RENEGOTIATION /\ s' = s /\ hs s = DONE)).
+    ((fatal_out o = true /\ err s' = true) \/ (quiet3 s i o /\ s' = s)).
 Proof.
-  intros c is i Hc s He Hccs Hn. subst s. pose proof (reach c is Hc) as R.
+  intros c is i Hc s He Hn. subst s. pose proof (reach c is Hc) as R.
   remember (fst (run (init c) is)) as s eqn:Es. clear Es.
   destruct (step s i) as [s' o] eqn:Hs. exists s', o. split; [reflexivity|].
   destruct R as [E | _ D Hi | Hl].
   - congruence.
-  - destruct (done_step s i s' o Hs He D) as [F | [[[[_ [Hi' V]] | [Ow _]] Es] | [m [Hi' [Hm [V [S [E _]]]]]]]].
+  - destruct (done_step c s i s' o Hs He D) as [F | [[Q Es] | [m [Hi' [Hm [Hb [V [S [E _]]]]]]]]].
     + left. exact F.
-    + exfalso. exact (Hccs V Hi').
-    + right. auto.
+    + destruct (quiet_cases c s i o Q) as [Q3 | [_ P]]; [right; split; assumption | contradiction].
     + exfalso. apply Hn. subst i. cbn [item_of].
-      destruct Hi as [md [N [L [V' [S' K]]]]].
-      assert (Hh : is_hello (c_server c) m = false).
-      { unfold is_hello. rewrite Hm. destruct (c_server c); reflexivity. }
-      exists [], md. rewrite app_nil_r. split.
-      * rewrite (negotiated_app_other c (acc s) m Hh). exact N.
-      * rewrite kinds_app. cbn [kinds map]. rewrite Hm. apply legal_nst; congruence.
-  - destruct (live_step c s i s' o Hl Hs) as [F | [[_ [_ [Hi' V]]] | [r [_ [_ [G [A _]]]]]]].
+      destruct (done_inv_nst c s m Hi Hm Hb V S) as [Hneg [md [N [L _]]]].
+      destruct (accept_nohash s m) as [_ [_ [_ [_ [A5 _]]]]]. rewrite A5 in N, L.
+      exists [], md. rewrite app_nil_r. split; assumption.
+  - destruct (live_step c s i s' o Hl Hs) as [F | [[Q Es] | [r [_ [_ [G [A _]]]]]]].
     + left. exact F.
-    + exfalso. exact (Hccs V Hi').
-    + exfalso. apply Hn. rewrite <- A. apply prefix_okb_sound.
-      unfold good in G. apply andb_prop in G. destruct G as [G _]. apply andb_prop in G. destruct G as [G _]. exact G.
+    + destruct (quiet_cases c s i o Q) as [Q3 | [_ P]]; [right; split; assumption | contradiction].
+    + exfalso. apply Hn. rewrite <- A. apply prefix_okb_sound. apply good_parts in G. tauto.
 Qed.
 
 Lemma has_kind_in k l : has_kind k l = true -> In k (kinds l).
